@@ -1,5 +1,6 @@
 import S2T.Lemmas.SerialMore
 import S2T.Gen.Schema
+import S2T.Props.C05_History
 /-!
 # C05 — `to_json` is JSON-serialisable and `from_json` restores the same object
 
@@ -99,6 +100,28 @@ theorem C05_roundtrip_partial (hS : SchemaOk S = true) (c : Str) (fs : List (Str
     · simp [canonFields_eq, List.map_map, Function.comp_def]
     · rw [serializeExtraction_obj, serializeExtraction_obj, ← hcanon]
       exact ser_canon _ _
+
+/-- **the round trip in every reachable process state**: after ANY history `pre` of `to_json` / `from_json` calls on
+any arguments (JSON of other types, written by this or another process, failing calls, …) in a process started with
+an empty registry, `from_json` of the JSON of `x` rebuilds `x` exactly as `C05_roundtrip_partial` says.  (State
+machine: `S2T/Model/SerialState.lean`; its tie to the source: `History.gen_state_sites_ok` + the fresh-process
+history correspondence of the harness.) -/
+theorem C05_roundtrip_any_history (hS : SchemaOk S = true) (pre : List S2T.SerialState.Op) (c : Str) (fs : List (Str × PyVal))
+    (h : WellTyped S .any (.obj c fs) = true) :
+    ∃ fs', (S2T.SerialState.run S .pure [] (pre ++ [.fromJson (serializeExtraction true (.obj c fs))])).getLast?
+        = some (.back (.ok (.obj c fs')))
+      ∧ fs'.map (·.1) = fs.map (·.1)
+      ∧ serializeExtraction true (.obj c fs') = serializeExtraction true (.obj c fs)
+      ∧ PyVal.obj c fs' = canon S .any (.obj c fs) := by
+  obtain ⟨fs', h1, h2, h3, h4⟩ := C05_roundtrip_partial hS c fs h
+  refine ⟨fs', ?_, h2, h3, h4⟩
+  rw [History.C05_after_any_history]
+  simp [S2T.SerialState.stateless, h1]
+
+/-- … and `to_json` after any history is the stateless serialiser -/
+theorem C05_to_json_any_history (pre : List S2T.SerialState.Op) (b : Bool) (v : PyVal) :
+    (S2T.SerialState.run S .pure [] (pre ++ [.toJson b v])).getLast? = some (.json (serializeExtraction b v)) := by
+  rw [History.C05_after_any_history]; rfl
 
 /-- image / attachment payloads: a binary leaf in any traversed position comes back as the same bytes
 (`bytearray` as `bytes`), whatever the declared type of the position -/
